@@ -6,7 +6,10 @@ samplers) vs the Lean model (Model/Stoch.lean, Float carrier) fed with the SAME 
 predicate (real code): exact SDE step for Brownian / geometric Brownian, jump models at zero
 intensity == geometric Brownian on the same normals (also when the caller keeps ONE tensor of normals /
 one initial-state tensor and hands it to several simulations in a row), and — search support, labelled — large-sample
-moment estimates with explicit 5-sigma error bars over a parameter sweep.
+moment estimates with explicit 5-sigma error bars over a parameter sweep; the same statements on paths produced by MANY SMALL calls
+(one or two paths, one or two steps per call: whole calls without a single jump) -- the law of a path does not depend on what the other
+paths of the call drew --, with sigma = 0 the compensated drift of the jump-free steps of the jump models, and on LONG series (301 / 513
+time points over one year; rough Bergomi: forward variance and Var[log V] at several dates of the series).
 """
 import math
 from common import *  # noqa
@@ -161,13 +164,140 @@ class _ViaInstrument:
         return self.SV(i.spot, i.variance)
 
 
+class _SmallBatches:
+    """generate_* look-alikes that produce the requested number of paths by MANY calls of the wrapped functions with `batch` paths each
+    and concatenate them.  With one or two paths and one or two time steps per call, calls in which no path draws a jump (or any other
+    rare event) are the rule: the law of a path must not depend on what the other paths of the same call drew."""
+
+    def __init__(self, inner, torch, batch):
+        self.inner, self.torch, self.batch = inner, torch, batch
+
+    def __getattr__(self, fname):
+        f, torch, b = getattr(self.inner, fname), self.torch, self.batch
+
+        def many(NP, *a, **k):
+            outs = [f(b, *a, **k) for _ in range(-(-NP // b))]
+            if isinstance(outs[0], tuple):
+                return type(outs[0])(*[torch.cat([o[i] for o in outs])[:NP] for i in range(len(outs[0]))])
+            return torch.cat(outs)[:NP]
+        return many
+
+
+def long_params(g, name):
+    """parameter sets for LONG series: n_steps in {301, 513} over one year (grids finer than the library's 250 steps per year), total
+    log-variance moderate so that the 5-sigma bars stay reliable"""
+    p = sweep_params(g, name)
+    n = g.choice([301, 513])
+    p |= {"n": n, "dt": 1 / (n - 1), "via": g.choice(["generator", "instrument"])}
+    if name == "geometric_brownian":
+        p["sigma"] = g.choice([0.2, 0.4])
+    elif name in ("cir", "heston") and min(p["theta"], p.get("init", p.get("v0"))) < 1e-3:
+        p |= {"theta": 0.04, "sigma": 0.2} | ({"init": 0.04} if name == "cir" else {"v0": 0.04})
+    elif name == "merton_jump":
+        p |= {"lam": 10.0, "sigma": g.choice([0.2, 0.4])}
+    elif name == "kou_jump":
+        p |= {"lam": 10.0, "sigma": g.choice([0.2, 0.4])}
+    elif name == "local_volatility":
+        p |= {"init": 1.0, "a": g.choice([0.2, 0.3]), "b": g.choice([0.0, 0.1]), "c": 0.0, "n": n, "dt": 1 / (n - 1)}
+    elif name == "rough_bergomi":
+        p |= {"alpha": g.choice([-0.4, -0.3, -0.2, 0.1]), "eta": g.choice([0.5, 1.0, 1.9]), "rho": g.choice([-0.9, 0.0, 0.5])}
+    return p
+
+
+def small_params(g, name):
+    """parameter sets for paths produced by many SMALL calls: `batch` paths and 2-3 time points per call; jump intensities such that
+    most calls contain no jump at all"""
+    p = sweep_params(g, name)
+    p |= {"n": g.choice([2, 2, 3]), "batch": g.choice([1, 1, 2]), "via": g.choice(["generator", "instrument"])}
+    if name in ("merton_jump", "kou_jump"):
+        p |= {"lam": g.choice([5.0, 25.0, 50.0]), "dt": g.choice([1 / 250, 0.01])}
+    if name == "kou_jump":
+        p |= {"p_up": g.choice([0.9, 0.2, 0.5]), "mean_up": 0.1, "mean_down": 0.05}
+    if name == "merton_jump":
+        p |= {"jm": g.choice([-0.1, 0.1, 0.0]), "js": 0.05}
+    if name == "local_volatility":
+        p |= {"dt": 1 / 250, "a": g.choice([0.2, 0.4]), "b": g.choice([0.0, 0.1]), "n": p["n"]}
+    return p
+
+
+def jump_compensator(name, p):
+    """m = E[exp(jump)] - 1 of one jump: the price drifts with mu - lam m between the jumps so that E[S_t] = S0 exp(mu t)"""
+    if name == "merton_jump":
+        return math.exp(p["jm"] + p["js"] ** 2 / 2) - 1
+    eu, ed = 1 / p["mean_up"], 1 / p["mean_down"]
+    return p["p_up"] * eu / (eu - 1) + (1 - p["p_up"]) * ed / (ed + 1) - 1
+
+
+def binom_two_sided(n, q, k):
+    """exact two-sided tail probability 2 min(P[X <= k], P[X >= k]) of X ~ Binomial(n, q), 0 < q < 1"""
+    lp = [math.lgamma(n + 1) - math.lgamma(j + 1) - math.lgamma(n - j + 1) + j * math.log(q) + (n - j) * math.log1p(-q) for j in range(n + 1)]
+    lo, hi = sum(math.exp(x) for x in lp[:k + 1]), sum(math.exp(x) for x in lp[k:])
+    return min(1.0, 2 * min(lo, hi))
+
+
+def jump_free_steps(ctx, torch, S, name, p, n_calls, origin):
+    """sigma = 0: a jump model is piecewise deterministic.  A step without jump has the log-increment (mu - lam m) dt exactly, in
+    every call and whatever the other steps / paths of the call do, and a step with a jump has another one (the jump sizes have a
+    density); so the number of steps with exactly the compensated drift is Binomial(steps, exp(-lam dt)).  Evaluated over many SMALL
+    calls (`batch` paths, n time points) of the generator or of ONE instrument that is simulated again and again."""
+    import pfhedge.instruments as I
+    f64 = torch.float64
+    N, n, dt, lam, mu, s0, via = p["batch"], p["n"], p["dt"], p["lam"], p["mu"], p["init"], p["via"]
+    drift = (mu - lam * jump_compensator(name, p)) * dt
+    case = {"kind": "jump-free-steps", "generator": name, "origin": origin, "n_calls": n_calls} | {k: v for k, v in p.items()} | {"sigma": 0.0}
+    ctx.case(case, True, tag="jump-free-steps")
+    ctx.stats[f"jump-free-steps {name}/{via}"] += 1
+    if name == "merton_jump":
+        kw = dict(mu=mu, sigma=0.0, jump_per_year=lam, jump_mean=p["jm"], jump_std=p["js"], dt=dt, dtype=f64)
+        inst = I.MertonJumpStock(**kw) if via == "instrument" else None
+        fn = S.generate_merton_jump
+    else:
+        kw = dict(sigma=0.0, mu=mu, jump_per_year=lam, jump_mean_up=p["mean_up"], jump_mean_down=p["mean_down"], jump_up_prob=p["p_up"], dt=dt, dtype=f64)
+        inst = I.KouJumpStock(**kw) if via == "instrument" else None
+        fn = S.generate_kou_jump
+    hits = total = 0
+    example = None
+    for c in range(n_calls):
+        try:
+            if inst is not None:
+                inst.simulate(n_paths=N, time_horizon=(n - 1) * dt, init_state=(s0,))
+                out = inst.spot
+            else:
+                out = fn(N, n, init_state=(s0,), **kw)
+        except Exception as e:  # noqa
+            ctx.fail("a jump model raised on admissible parameters (small call, sigma = 0)", case | {"call": c}, key=f"jump-free-steps:{name}:error", detail=repr(e)[:200])
+            return
+        if tuple(out.shape) != (N, n):
+            ctx.fail("an instrument simulated over the horizon (n-1) dt does not return n time steps", case, key=f"inst:{name}:grid", detail=list(out.shape))
+            return
+        inc = out.log().diff(dim=1)
+        ok = (inc - drift).abs() <= 1e-10
+        hits += int(ok.sum())
+        total += inc.numel()
+        if example is None and not bool(ok.all()):
+            example = {"call": c, "prices": [float(x) for x in out[0].tolist()], "log_increments_path0": [float(x) for x in inc[0].tolist()]}
+    q = math.exp(-lam * dt)
+    sd = math.sqrt(total * q * (1 - q))
+    # (exact binomial tail; 5.7e-7 is the two-sided 5-sigma level used for the moment estimates)
+    if binom_two_sided(total, q, hits) < 5.7e-7:
+        ctx.fail(f"{name} with sigma = 0 over many small calls: the number of steps that move with the compensated drift (mu - lam m) dt is not "
+                 "Binomial(steps, exp(-lam dt)) -- jump-free steps do not drift with mu - lam m (or jumps are not drawn with intensity lam)", case,
+                 key=f"jump-free-steps:{name}:compensated-drift",
+                 detail={"steps": total, "steps_with_compensated_drift": hits, "expected": total * q, "std_dev": sd, "two_sided_binomial_tail": binom_two_sided(total, q, hits),
+                         "compensated_log_drift_per_step": drift,
+                         "first_call_with_another_increment": example})
+
+
 def moment_suite(ctx, torch, S, name, p, NP, origin):
     """search support (not proof): large-sample estimates of the moment statements of C10 on the REAL generator at parameter set `p`,
     each with an explicit 5-standard-error bar; a deviation is a failing input of the property"""
     dt64 = getattr(torch, p.get("dtype", "float64"))
     if str(p.get("via")).startswith("instrument") and name != "brownian":
         S = _ViaInstrument(torch, used_before={"instrument-again": "again", "instrument-copied": "copied"}.get(p["via"]))
+    if p.get("batch"):
+        S = _SmallBatches(S, torch, p["batch"])      # the NP paths come from NP / batch small calls
     dt, n = p["dt"], p["n"]
+    sfx = ":small-calls" if p.get("batch") else (":long-series" if n > 256 else "")
     T = (n - 1) * dt
     case = {k: v for k, v in p.items()} | {"generator": name, "n_paths": NP, "origin": origin}
     _mean_se, _var_se = mean_se, var_se
@@ -178,7 +308,8 @@ def moment_suite(ctx, torch, S, name, p, NP, origin):
         ctx.case(case | {"stat": what}, True, tag="moments")
         ctx.stats[f"moment:{name}"] += 1
         if not abs(est - exact) <= 5 * se + slack:
-            ctx.fail(f"{name}: {what} deviates from its closed form by more than 5 standard errors", case | {"stat": what}, key=key,
+            ctx.fail(f"{name}: {what} deviates from its closed form by more than 5 standard errors"
+                     + (" (paths produced by many small calls)" if p.get("batch") else ""), case | {"stat": what}, key=key + sfx,
                      detail={"estimate": est, "std_error": se, "closed_form": exact})
     if name == "brownian":
         x = S.generate_brownian(NP, n, init_state=(p["init"],), sigma=p["sigma"], mu=p["mu"], dt=dt, dtype=dt64)[:, -1]
@@ -249,7 +380,7 @@ def moment_suite(ctx, torch, S, name, p, NP, origin):
                 ctx.case(case | {"stat": "corr"}, True, tag="moments")
                 if not (abs(corr - p["rho"]) < 0.1):
                     ctx.fail("heston: correlation of returns and variance moves does not have the sign and size of rho", case | {"stat": "corr"},
-                             key="moment:heston:corr", detail={"corr": corr, "rho": p["rho"]})
+                             key="moment:heston:corr" + sfx, detail={"corr": corr, "rho": p["rho"]})
     elif name == "local_volatility":
         a, b, c = p["a"], p["b"], p.get("c", 0.0)
         o = S.generate_local_volatility_process(NP, n, lambda t, s: a + b * s + c * t, init_state=(p["init"],), dt=dt, dtype=dt64)
@@ -260,11 +391,42 @@ def moment_suite(ctx, torch, S, name, p, NP, origin):
         o = S.generate_rough_bergomi(min(NP, 20000), n, init_state=(p["s0"], xi), alpha=p["alpha"], rho=p["rho"], eta=p["eta"], xi=xi, dt=dt, dtype=dt64)
         m, se = mean_se_(o.variance[:, -1])
         crb = {"xi": xi, "n_steps": n, "dt": dt, "horizon_years": (n - 1) * dt, "alpha": p["alpha"], "eta": p["eta"]}
+        if p.get("batch") or n > 256 or origin != "sweep":
+            crb |= {"n_paths": min(NP, 20000), "via": p.get("via"), "dtype": p.get("dtype", "float64"), "origin": origin, "batch": p.get("batch")}
         ctx.case(crb, True, tag="moments")
         ctx.stats["moment:rough_bergomi"] += 1
-        if abs(m - xi) > 5 * se + 0.02 * xi:
-            ctx.fail("rough Bergomi: mean forward variance drifts away from xi (kernel normalised by n_steps-1 instead of 1/dt)", crb,
-                     key="moment:rough_bergomi:variance-mean", detail={"estimate": m, "std_error": se, "xi": xi})
+        if abs((n - 1) * dt - 1.0) > 1e-9:
+            if abs(m - xi) > 5 * se + 0.02 * xi:
+                ctx.fail("rough Bergomi: mean forward variance drifts away from xi (kernel normalised by n_steps-1 instead of 1/dt)", crb,
+                         key="moment:rough_bergomi:variance-mean", detail={"estimate": m, "std_error": se, "xi": xi})
+        else:
+            # a horizon of exactly one year (where the generator's kernel normalisation n_steps - 1 IS 1/dt; other horizons: known finding
+            # K4): V(t) = xi exp(eta Y(t) - eta^2/2 t^(2 alpha + 1)) with Var Y(t) = t^(2 alpha + 1), at EVERY date of the series, however
+            # many steps the year is divided into: E[V(t)] = xi and Var[log V(t)] = eta^2 t^(2 alpha + 1).  Tolerance beyond the 5
+            # standard errors: the hybrid scheme's kernel weights reproduce t^(2 alpha + 1) to a relative 1e-3 (computed from the
+            # weights for alpha in [-0.45, 0.1] and 5 .. 1024 steps per year), i.e. Var[log V] to 2e-3 relative and E[V] to
+            # eta^2/2 * 1e-3 <= 2e-3 relative for eta <= 1.9.  (The 5-sigma bar of the MEAN of the lognormal V is only used for a
+            # moderate log-variance eta^2 <= 1.)
+            expo = 2 * p["alpha"] + 1
+            for k in sorted({max(1, (n - 1) // 4), max(1, (n - 1) // 2), max(1, 3 * (n - 1) // 4), n - 1}):
+                t = k * dt
+                v = o.variance[:, k].to(torch.float64)
+                ck = crb | {"time_index": k, "t": t}
+                ctx.case(ck, True, tag="moments")
+                if p["eta"] <= 1.0:
+                    m, se = mean_se_(v)
+                    if not abs(m - xi) <= 5 * se + 0.005 * xi:
+                        ctx.fail("rough Bergomi on a one-year horizon: the mean forward variance E[V(t)] does not stay at xi", ck,
+                                 key="moment:rough_bergomi:unit-horizon:forward-variance" + sfx, detail={"estimate": m, "std_error": se, "xi": xi})
+                lv, selv = var_se_((v / xi).log())
+                law = p["eta"] ** 2 * t ** expo
+                if not abs(lv - law) <= 5 * selv + 0.002 * law:
+                    ctx.fail("rough Bergomi on a one-year horizon: Var[log V(t)] is not eta^2 t^(2 alpha + 1)", ck,
+                             key="moment:rough_bergomi:unit-horizon:log-variance" + sfx, detail={"estimate": lv, "std_error": selv, "law": law})
+            m, se = mean_se_(o.spot[:, -1])
+            if p["eta"] <= 1.0 and not abs(m - p["s0"]) <= 5 * se + 1e-12:
+                ctx.fail("rough Bergomi on a one-year horizon: the terminal spot mean is not S0 (martingale)", crb,
+                         key="moment:rough_bergomi:unit-horizon:spot-mean" + sfx, detail={"estimate": m, "std_error": se, "S0": p["s0"]})
 
 
 class KeptNormals:
@@ -423,9 +585,12 @@ def check(ctx):
     torch.manual_seed(ctx.seed % (2 ** 31))
     n = 1000 if ctx.tier == "quick" else 5000
     reqs, metas = [], []
-    for it in range(n):
-        name = g.choice(GENERATORS)
-        p = gen_params(g, name)
+    n_long = len(GENERATORS) * (1 if ctx.tier == "quick" else 4)
+    for it in range(n + n_long):
+        name = g.choice(GENERATORS) if it < n else GENERATORS[(it - n) % len(GENERATORS)]
+        # (after the random cases: every generator on a LONG series, one path of 301 / 513 time points over one year -- the model
+        # follows the same draws over the whole series)
+        p = gen_params(g, name) if it < n else {k: v for k, v in long_params(g, name).items() if k not in ("via", "dtype")} | {"N": 1}
         # a third of the cases go through the primary instrument built on the generator (parameter plumbing instrument -> generator)
         via = "instrument" if (name in INSTRUMENTS and g.chance(0.35)) else "generator"
         case = {"generator": name, "params": p, "via": via}
@@ -447,6 +612,8 @@ def check(ctx):
             continue
         ctx.stats[f"generator={name}"] += 1
         ctx.stats[f"via={via}"] += 1
+        if it >= n:
+            ctx.stats["long series with recorded draws"] += 1
         ctx.case(case, nontrivial=p["n"] >= 2, tag=name)
         ctx.traces += 1
         if name == "cir" or name == "heston":
@@ -533,6 +700,44 @@ def check(ctx):
         for form in ("tuple", "scalar", "tensor0"):
             moment_suite(ctx, torch, S, "vasicek", {"dt": 1 / 250, "n": 11, "init": 0.0, "kappa": 3.0, "theta": 0.1, "sigma": 0.02, "init_form": form, "via": via_,
                                                     "dtype": "float64"}, NP, "corpus")
+    # ---------------- LONG series (more than 256 time points: 301 / 513 over one year, finer than the library's 250 steps per year): the
+    # statements do not depend on how finely the horizon is divided.  Corpus on every tier: rough Bergomi (forward variance and Var[log V]
+    # at the quarter dates of the series; the horizon is one year, where the generator's kernel normalisation is right -- other horizons
+    # are known finding K4) through the generator and the instrument; random: every generator once per sweep
+    NL = 3000 if ctx.tier == "quick" else 20000
+    rb_long = {"s0": 1.0, "xi": 0.09, "v0": 0.09, "n": 513, "dt": 1 / 512, "rho": -0.7}
+    moment_suite(ctx, torch, S, "rough_bergomi", rb_long | {"alpha": -0.3, "eta": 1.0, "via": "generator", "dtype": "float32"}, 20000, "corpus")
+    moment_suite(ctx, torch, S, "rough_bergomi", rb_long | {"alpha": -0.2, "eta": 1.9, "via": "instrument", "dtype": "float64"}, max(NL, 4000), "corpus")
+    for sw in range(1 if ctx.tier == "quick" else 3):
+        for name in GENERATORS:
+            lp_ = long_params(g, name)
+            try:
+                moment_suite(ctx, torch, S, name, lp_, NL, "sweep")
+            except GridMismatch as e:
+                ctx.fail("an instrument simulated over the horizon (n-1) dt does not return n time steps", lp_ | {"generator": name}, key=f"inst:{name}:grid",
+                         detail=str(e)[:200])
+    # ---------------- paths produced by MANY SMALL calls (one or two paths, one or two steps per call, jump intensities such that most calls
+    # contain no jump at all): the law of a path does not depend on what the other paths of the same call drew.  Corpus on every tier:
+    # both jump models through the generator and through one instrument simulated again and again -- (a) sigma = 0: jump-free steps
+    # move with the compensated drift (mu - lam m) dt exactly, (b) sigma > 0: mean and log-variance of S(dt) over the calls; random: any generator
+    NS = 1200 if ctx.tier == "quick" else 6000
+    small_corpus = [("kou_jump", {"init": 2.0, "mu": 0.05, "sigma": 0.1, "lam": 50.0, "mean_up": 0.1, "mean_down": 0.05, "p_up": 0.9, "dt": 0.01}),
+                    ("merton_jump", {"init": 1.5, "mu": 0.03, "sigma": 0.1, "lam": 50.0, "jm": -0.1, "js": 0.05, "dt": 0.01})]
+    for name, sp_ in small_corpus:
+        for via_ in ("generator", "instrument"):
+            jump_free_steps(ctx, torch, S, name, sp_ | {"n": 2, "batch": 1, "via": via_}, NS // 2, "corpus")
+            moment_suite(ctx, torch, S, name, sp_ | {"n": 2, "batch": 1, "via": via_, "dtype": "float64"}, NS, "corpus")
+    for sw in range(2 if ctx.tier == "quick" else 12):
+        name = g.choice(GENERATORS)
+        sp_ = small_params(g, name)
+        try:
+            moment_suite(ctx, torch, S, name, sp_, NS, "sweep")
+        except GridMismatch as e:
+            ctx.fail("an instrument simulated over the horizon (n-1) dt does not return n time steps", sp_ | {"generator": name}, key=f"inst:{name}:grid",
+                     detail=str(e)[:200])
+        name = g.choice(["merton_jump", "kou_jump"])
+        sp_ = small_params(g, name)
+        jump_free_steps(ctx, torch, S, name, sp_, max(150, NS // (2 * sp_["batch"] * (sp_["n"] - 1))), "sweep")
     # ---------------- failing-input search directed at the generators whose correspondence broke:
     # the same moment statements evaluated at (tamed variants of) the disagreeing parameter sets
     seen = set()
@@ -546,10 +751,18 @@ def check(ctx):
         seen.add(k)
         for mp in directed_params(c["generator"], c["params"]):
             moment_suite(ctx, torch, S, c["generator"], mp, 100000, "directed")
+            if c["generator"] in ("merton_jump", "kou_jump") and mp["lam"] > 0 and (c["generator"] == "kou_jump" or mp["js"] > 0):
+                # ... and on small calls (the disagreeing call was one)
+                jump_free_steps(ctx, torch, S, c["generator"], mp | {"n": max(2, min(mp["n"], 3)), "batch": min(c["params"].get("N", 1), 2), "via": c.get("via", "generator")},
+                                300, "directed")
     return ctx.finish(
         rule="all nine generators with recorded draws over parameter sweeps (non-default initial states, dt in {1/250,1/12,0.1,1/365}, n in {1..20}, "
              "both CIR QE branches via high/low vol-of-vol, zero and high jump intensities); moment estimates with 5-sigma bars on 2 (quick) / 8 (thorough) "
-             "parameter sets with 2e4 / 2e5 paths (generator, instrument, instrument simulated before, instrument simulated before and deep-copied); caller-kept tensors used for "
+             "parameter sets with 2e4 / 2e5 paths (generator, instrument, instrument simulated before, instrument simulated before and deep-copied); LONG series (301 / 513 time "
+             "points over one year: every generator with recorded draws against the model, moment estimates for every generator, rough Bergomi forward variance and Var[log V] at "
+             "the quarter dates, corpus alpha=-0.3/-0.2 at 513 points via generator and instrument); paths produced by many SMALL calls (1-2 paths, 2-3 time points per call: moment "
+             "estimates over 1200 / 6000 calls, corpus Kou / Merton via generator and one re-simulated instrument, random any generator; sigma = 0: number of steps with the "
+             "compensated drift vs Binomial(steps, exp(-lam dt)), exact tail); caller-kept tensors used for "
              "2-4 simulations in a row (one tensor of normals per shape handed out by the engine as the same object / .to() / a view, optionally one 0-dim initial-state tensor; Brownian, "
              "geometric Brownian, Merton / Kou generators and instruments at zero intensity, instruments simulated again) checked step by step against the normals the caller generated and "
              "sent to the model with those normals; a volatility callable handing out one kept tensor (model only); non-trivial = n >= 2; distinct = sha1 of canonical case",
